@@ -7,6 +7,7 @@
 
 mod abort;
 mod elem;
+mod flatten;
 mod split;
 mod strfail;
 mod vecs;
@@ -244,6 +245,20 @@ fn drive<T: ElemT + Clone + PartialEq, Sub: Subject<T>>(mut sub: Sub, mut model:
 
 /// Creates the subject of `kind` with `init` elements on a fresh arena and drives the history.
 pub fn run_case(ci: usize, kind: Kind, zst: bool, init: usize, ops: &[VOp], mode: Mode) -> CaseResult {
+    struct Infl<'a>(usize, Kind, bool, usize, &'a [VOp], Mode);
+    fn fmt(p: *const ()) -> String {
+        let i = unsafe { &*(p as *const Infl<'_>) };
+        let (prop, k, drops) = match i.5 {
+            Mode::Diff => ("C08", None, false),
+            Mode::Inject { k, drops } => ("C06", k, drops),
+        };
+        format!("replaycase=<<{}>>", case_text(prop, i.0, i.1, i.2, i.3, i.4, k, drops))
+    }
+    let infl = Infl(ci, kind, zst, init, ops, mode);
+    vcore::crash::with_inflight(&infl, fmt, || run_case_inner(ci, kind, zst, init, ops, mode))
+}
+
+fn run_case_inner(ci: usize, kind: Kind, zst: bool, init: usize, ops: &[VOp], mode: Mode) -> CaseResult {
     slab::select(0);
     slab::reset(0, SlabCfg::default());
     elem::reset();
@@ -781,7 +796,10 @@ fn main() {
             let mut results = Vec::new();
             match prop.as_str() {
                 "C06" | "C08" => results.push(explore_vecs(&prop, thorough, deadline)),
-                "C16" => results.push(split::explore(thorough, deadline)),
+                "C16" => {
+                    results.push(split::explore(thorough, deadline));
+                    results.push(flatten::explore(thorough));
+                }
                 "C07" => {
                     results.push(split::explore_alloc_failures(thorough, deadline));
                     results.push(strfail::explore_str_failures(thorough, deadline));
@@ -806,6 +824,13 @@ fn main() {
                 match abort_verdict(ci.parse().expect("ci"), name) {
                     Ok(_) => println!("REPLAY OK"),
                     Err(m) => println!("REPLAY VIOLATION step=0 msg={m}"),
+                }
+                return;
+            }
+            if case.starts_with("flat:") {
+                match flatten::replay(&case) {
+                    Some(m) => println!("REPLAY VIOLATION step=0 msg={m}"),
+                    None => println!("REPLAY OK"),
                 }
                 return;
             }
